@@ -22,8 +22,9 @@
 
    Steps (one action per step the code takes): Call - a method of Terminal is entered; Write - one
    write datagram reaches the terminal (any EtherCAT command); Return - the method returns and
-   its post-condition is due; EnvAl / EnvNewObj - somebody else changes the AL state, a second
-   user creates his own Terminal object.
+   its post-condition is due; Fail - it raises; EnvAl / EnvNewObj - somebody else changes the AL
+   state, a second user creates his own Terminal object.  Model-checked with a reference master
+   in MC_EscInit, bound to the real code by EscInitScripts (scripts) and EscInitTrace (traces).
 
    Requirements and where they are taken from
      R1 station   initialize docstring (":param absolute: the number used to identify the terminal
@@ -45,7 +46,8 @@
      R6 pdo       write_pdo_sm as used by EBPFTerminal.apply_eeprom ("pdo_out_sz = (outbits + 7)
                   // 8 ... write_pdo_sm"): the sizes go into the length registers of the
                   process-data sync managers, which are active iff the size is non-zero; start and
-                  control stay; no other sync manager changes.
+                  control stay; no other declared sync manager changes, the others are left alone
+                  or at least not active.
      R7 watchdog  set_watchdog docstring: "set the watchdog time for the PDI and process data
                   watchdog": 0x410 and 0x420 hold the two values, nothing else changes.
      R8 gentle    gentle_initialize docstring: "Initialize a terminal only if not already
@@ -53,10 +55,12 @@
                   terminal to a state such that one can read and write SDO parameters": on a
                   terminal that has a station address and is not in INIT no tracked register
                   changes and only the SII interface is written; the object knows the station
-                  address and (if the blocks are configured as the EEPROM says) the mailbox areas.
+                  address and (if the blocks are configured as the EEPROM says, the others empty)
+                  the mailbox areas.
                   Otherwise it behaves like initialize.
-     R9 frame     consistency: a call writes only registers of its own area (Allowed), only to
-                  its own terminal, changes no other memory, and does not fail.
+     R9 frame     consistency: every write datagram of a call lies inside a register area of that
+                  call (Allowed), goes to its own terminal and to no other, no other memory of
+                  any terminal changes, and the call does not fail.
    Observations (behaviour of /repo that breaks a requirement; a trace is first validated with no
    relaxation, a rejected one again with the relaxations whose predicate (Applicable) holds, each
    of which replaces one requirement by exactly what the code does):
@@ -68,7 +72,8 @@
      O3  write_pdo_sm falls back to block 2 (out) / block 3 (in) when it knows no process-data
          sync manager of that direction, whatever the EEPROM declares there (R6).
      O4  without category 41 apply_eeprom returns before parse_sync_managers: the object has no
-         mailbox / process-data attributes at all, has_mailbox() raises AttributeError (R5).   *)
+         mailbox / process-data attributes at all (has_mailbox() raises AttributeError), or keeps
+         those of an earlier call (R5).                                                       *)
 EXTENDS Integers, Sequences, FiniteSets
 
 CONSTANTS NSm           \* number of sync-manager register blocks (16 on the real register map)
@@ -91,40 +96,51 @@ StPreop == 2
 StSafeop == 4
 StOp == 8
 
-WdRegs == {AWdDiv, AWdDiv + 1, AWdPdi, AWdPdi + 1, AWdProc, AWdProc + 1}
-StationRegs == {AStation, AStation + 1}
-AlRegs == {AAlCtl, AAlCtl + 1}
-SiiRegs == ASiiLo .. ASiiHi
-FmmuRegs(nf) == AFmmu .. (AFmmu + 16 * nf - 1)
-SmRegs == ASm .. (ASm + 8 * NSm - 1)
-Tracked(nf) == StationRegs \cup WdRegs \cup FmmuRegs(nf) \cup SmRegs
-
 Bit0(b) == b % 2 = 1
 U16(s, o) == s[o + 1] + 256 * s[o + 2]              \* 0-based offset into a byte sequence
-R16(reg, a) == reg[a] + 256 * reg[a + 1]
 LE16(v) == <<v % 256, v \div 256>>
 SetMax(S) == CHOOSE x \in S : \A y \in S : y <= x
 
 (* ------------------------------------------------------------------------------------------ *)
-(* the slave controller *)
-SmBlock(reg, n) == [start |-> R16(reg, ASm + 8 * n), len |-> R16(reg, ASm + 8 * n + 2),
-                    ctl |-> reg[ASm + 8 * n + 4], act |-> reg[ASm + 8 * n + 6]]
-SmActive(reg, n) == Bit0(reg[ASm + 8 * n + 6])
-Writable(reg, a) ==
-    IF a \in SmRegs THEN
-        LET o == (a - ASm) % 8
-            n == (a - ASm) \div 8
-        IN  IF o \in {5, 7} THEN FALSE
-            ELSE IF o <= 4 THEN ~SmActive(reg, n) ELSE TRUE
-    ELSE TRUE
+(* the slave controller: esc = [station, wd, fmmu, sm, al, nf]
+     station  the 16-bit station address          wd   <<divider, PDI time, process-data time>>
+     fmmu     nf blocks of 16 bytes               sm   NSm blocks of 8 bytes
+     al       the AL state                        (blocks and bytes are numbered from 1 in TLA+) *)
 Hits(ado, n, a) == ado <= a /\ a < ado + n
-(* one write datagram: the bytes land where the register accepts them (judged on the state
-   before the datagram); a state request in AL control is followed                           *)
+Overlaps(ado, n, lo, size) == ado < lo + size /\ lo < ado + n
+(* a 16-bit register at address a after the write *)
+Reg16(old, a, ado, data) ==
+    (IF Hits(ado, Len(data), a) THEN data[a - ado + 1] ELSE old % 256)
+    + 256 * (IF Hits(ado, Len(data), a + 1) THEN data[a + 1 - ado + 1] ELSE old \div 256)
+(* a block of plain bytes at address lo *)
+Block(old, lo, ado, data) ==
+    IF ~Overlaps(ado, Len(data), lo, Len(old)) THEN old
+    ELSE [o \in 1 .. Len(old) |-> IF Hits(ado, Len(data), lo + o - 1) THEN data[lo + o - 1 - ado + 1]
+                                  ELSE old[o]]
+(* a sync-manager block: status (offset 5) and PDI control (7) are read-only, start / length /
+   control (0 .. 4) are locked while the sync manager is active - judged on the block as it is
+   before the datagram                                                                        *)
+SmActiveB(b) == Bit0(b[7])
+SmWritable(b, off) == IF off \in {5, 7} THEN FALSE ELSE IF off <= 4 THEN ~SmActiveB(b) ELSE TRUE
+SmBlockW(old, lo, ado, data) ==
+    IF ~Overlaps(ado, Len(data), lo, 8) THEN old
+    ELSE [o \in 1 .. 8 |-> IF Hits(ado, Len(data), lo + o - 1) /\ SmWritable(old, o - 1)
+                           THEN data[lo + o - 1 - ado + 1] ELSE old[o]]
+(* one write datagram: the bytes land where the register accepts them; a state request in AL
+   control is followed.  The SII registers are not part of the register file.               *)
 EscWrite(e, ado, data) ==
-    LET r == e.reg IN
-    [e EXCEPT !.reg = [a \in DOMAIN r |-> IF Hits(ado, Len(data), a) /\ Writable(r, a)
-                                          THEN data[a - ado + 1] ELSE r[a]],
-              !.al = IF Hits(ado, Len(data), AAlCtl) THEN data[AAlCtl - ado + 1] % 16 ELSE @]
+    IF ASiiLo <= ado /\ ado + Len(data) - 1 <= ASiiHi THEN e
+    ELSE [e EXCEPT
+            !.station = Reg16(@, AStation, ado, data),
+            !.wd = <<Reg16(@[1], AWdDiv, ado, data), Reg16(@[2], AWdPdi, ado, data),
+                     Reg16(@[3], AWdProc, ado, data)>>,
+            !.fmmu = [i \in 1 .. e.nf |-> Block(e.fmmu[i], AFmmu + 16 * (i - 1), ado, data)],
+            !.sm = [n \in 1 .. NSm |-> SmBlockW(e.sm[n], ASm + 8 * (n - 1), ado, data)],
+            !.al = IF Hits(ado, Len(data), AAlCtl) THEN data[AAlCtl - ado + 1] % 16 ELSE @]
+
+SmBlock(e, n) == LET b == e.sm[n + 1] IN            \* n counted from 0, as in 0x800 + 8 n
+    [start |-> b[1] + 256 * b[2], len |-> b[3] + 256 * b[4], ctl |-> b[5], act |-> b[7]]
+SmActive(e, n) == SmActiveB(e.sm[n + 1])
 
 (* ------------------------------------------------------------------------------------------ *)
 (* the EEPROM's sync-manager category: ee = [has41, d, outbits, inbits, other] *)
@@ -158,32 +174,30 @@ Applicable(e) ==
 (* ------------------------------------------------------------------------------------------ *)
 (* requirements on the state after a call;  c: the call with the ESC at its entry (c.pre),
    e: the ESC now, v: the Terminal object's attributes now, ee: the EEPROM, rx: relaxations   *)
-SameOn(r0, r1, S) == \A a \in S : r1[a] = r0[a]
-BlockRegs(n) == (ASm + 8 * n) .. (ASm + 8 * n + 7)
-
 StationOK(c, e, v, ee) ==                                                             \* R1
-    /\ R16(e.reg, AStation) = v.position
+    /\ e.station = v.position
     /\ IF c.has_abs THEN v.position = c.abs
        ELSE v.position \in 1 .. 65535 /\ v.position # ee.other
-    /\ ~c.has_rel => SameOn(c.pre.reg, e.reg, StationRegs)
+    /\ ~c.has_rel => e.station = c.pre.station
 
 FmmusOff(c, e, v) ==                                                                  \* R3
     /\ v.nfmmu = e.nf
-    /\ \A i \in 0 .. (e.nf - 1) :
-          /\ ~Bit0(e.reg[AFmmu + 16 * i + 12])
-          /\ \A o \in 0 .. 15 : e.reg[AFmmu + 16 * i + o] \in {c.pre.reg[AFmmu + 16 * i + o], 0}
+    /\ \A i \in 1 .. e.nf :
+          /\ ~Bit0(e.fmmu[i][13])
+          /\ \A o \in 1 .. 16 : e.fmmu[i][o] \in {c.pre.fmmu[i][o], 0}
 
 ActOK(act, x, rx) == IF "O1" \in rx THEN act = x.en
                      ELSE Bit0(act) = (Bit0(x.en) /\ x.len # 0)
-SmAsEeprom(reg, d, n, rx) ==
+SmAsEeprom(e, d, n, rx) ==
     LET x == Ent(d, n)
-        s == SmBlock(reg, n)
+        s == SmBlock(e, n)
     IN  s.start = x.start /\ s.len = x.len /\ s.ctl = x.ctl /\ ActOK(s.act, x, rx)
+SmSame(c, e, n) == e.sm[n + 1] = c.pre.sm[n + 1]
 SmsProgrammed(c, e, ee, rx) ==                                                        \* R4
     IF ee.has41 THEN
-        \A n \in 0 .. (NSm - 1) : IF n < NEnt(ee.d) THEN SmAsEeprom(e.reg, ee.d, n, rx)
-                                  ELSE ~SmActive(e.reg, n)
-    ELSE \A n \in 0 .. (NSm - 1) : SameOn(c.pre.reg, e.reg, BlockRegs(n)) \/ ~SmActive(e.reg, n)
+        \A n \in 0 .. (NSm - 1) : IF n < NEnt(ee.d) THEN SmAsEeprom(e, ee.d, n, rx)
+                                  ELSE ~SmActive(e, n)
+    ELSE \A n \in 0 .. (NSm - 1) : SmSame(c, e, n) \/ ~SmActive(e, n)
 
 MbxViewOK(off, sz, d, kind, rx) ==
     IF Cands(d, kind, rx) = {} THEN off = None /\ sz = None
@@ -197,75 +211,79 @@ ViewFields(v) == <<v.mbx_out_off, v.mbx_out_sz, v.mbx_in_off, v.mbx_in_sz, v.pdo
 MbxViewsOK(v, ee, rx) ==
     /\ MbxViewOK(v.mbx_out_off, v.mbx_out_sz, ee.d, "mbx_out", rx)
     /\ MbxViewOK(v.mbx_in_off, v.mbx_in_sz, ee.d, "mbx_in", rx)
-ViewOK(v, ee, rx) ==                                                                  \* R5
+ViewOK(v, o, ee, rx) ==                      \* o: the attributes before the call       R5
     IF ee.has41 THEN
         /\ MbxViewsOK(v, ee, rx)
         /\ PdoViewOK(v.pdo_out_off, v.pdo_out_sz, v.pdo_out_addr, ee.d, "pdo_out", rx)
         /\ PdoViewOK(v.pdo_in_off, v.pdo_in_sz, v.pdo_in_addr, ee.d, "pdo_in", rx)
-    ELSE IF "O4" \in rx THEN \A k \in 1 .. 8 : ViewFields(v)[k] = Unset
+    ELSE IF "O4" \in rx THEN ViewFields(v) = ViewFields(o)     \* nothing is assigned at all
     ELSE /\ v.mbx_out_off = None /\ v.mbx_out_sz = None
          /\ v.mbx_in_off = None /\ v.mbx_in_sz = None
          /\ v.pdo_out_sz \in {None, 0} /\ v.pdo_in_sz \in {None, 0}
 
-PostInitialize(c, e, v, ee, rx) ==
+PostInitialize(c, e, v, o, ee, rx) ==
     /\ StationOK(c, e, v, ee)
     /\ e.al = StInit                                                                  \* R2
     /\ FmmusOff(c, e, v)
     /\ SmsProgrammed(c, e, ee, rx)
-    /\ ViewOK(v, ee, rx)
-    /\ SameOn(c.pre.reg, e.reg, WdRegs)
+    /\ ViewOK(v, o, ee, rx)
+    /\ e.wd = c.pre.wd
 
-PostApply(c, e, v, ee, rx) ==
+PostApply(c, e, v, o, ee, rx) ==
     /\ SmsProgrammed(c, e, ee, rx)
-    /\ ViewOK(v, ee, rx)
-    /\ SameOn(c.pre.reg, e.reg, StationRegs \cup WdRegs \cup FmmuRegs(e.nf))
+    /\ ViewOK(v, o, ee, rx)
+    /\ e.station = c.pre.station /\ e.wd = c.pre.wd /\ e.fmmu = c.pre.fmmu
     /\ e.al = c.pre.al
 
 (* R8: the terminal counts as configured exactly when the code's own test says so *)
-Configured(c) == (c.has_rel => R16(c.pre.reg, AStation) # 0) /\ c.pre.al # StInit
-ConfiguredAsEeprom(reg, ee) ==
-    ee.has41 /\ \A n \in 0 .. (NEnt(ee.d) - 1) :
-                    SmBlock(reg, n).start = Ent(ee.d, n).start /\ SmBlock(reg, n).ctl = Ent(ee.d, n).ctl
-GentleMbxOK(off, sz, reg, d, kind, rx) ==
+Configured(c) == (c.has_rel => c.pre.station # 0) /\ c.pre.al # StInit
+ZeroBlock == <<0, 0, 0, 0, 0, 0, 0, 0>>
+ConfiguredAsEeprom(e, ee) ==
+    /\ ee.has41
+    /\ \A n \in 0 .. (NEnt(ee.d) - 1) :
+          SmBlock(e, n).start = Ent(ee.d, n).start /\ SmBlock(e, n).ctl = Ent(ee.d, n).ctl
+    /\ \A n \in NEnt(ee.d) .. (NSm - 1) : e.sm[n + 1] = ZeroBlock
+GentleMbxOK(off, sz, e, d, kind, rx) ==
     IF Cands(d, kind, rx) = {} THEN off = None /\ sz = None
-    ELSE \E n \in Cands(d, kind, rx) : off = SmBlock(reg, n).start /\ sz = SmBlock(reg, n).len
-PostGentle(c, e, v, ee, rx) ==
+    ELSE \E n \in Cands(d, kind, rx) : off = SmBlock(e, n).start /\ sz = SmBlock(e, n).len
+PostGentle(c, e, v, o, ee, rx) ==
     IF Configured(c) THEN
-        /\ e.reg = c.pre.reg /\ e.al = c.pre.al
-        /\ v.position = R16(e.reg, AStation)
+        /\ e = c.pre
+        /\ v.position = e.station
         /\ c.has_abs => v.position = c.abs
-        /\ ConfiguredAsEeprom(e.reg, ee) =>
-              /\ GentleMbxOK(v.mbx_out_off, v.mbx_out_sz, e.reg, ee.d, "mbx_out", rx)
-              /\ GentleMbxOK(v.mbx_in_off, v.mbx_in_sz, e.reg, ee.d, "mbx_in", rx)
-    ELSE PostInitialize(c, e, v, ee, rx)
+        /\ ConfiguredAsEeprom(e, ee) =>
+              /\ GentleMbxOK(v.mbx_out_off, v.mbx_out_sz, e, ee.d, "mbx_out", rx)
+              /\ GentleMbxOK(v.mbx_in_off, v.mbx_in_sz, e, ee.d, "mbx_in", rx)
+    ELSE PostInitialize(c, e, v, o, ee, rx)
 
 (* R6 *)
 PdoProgrammed(c, e, d, kind, sz, rx) ==
     IF Cands(d, kind, rx) = {} THEN TRUE
     ELSE \E n \in Cands(d, kind, rx) :
-            LET s == SmBlock(e.reg, n)
-                p == SmBlock(c.pre.reg, n)
+            LET s == SmBlock(e, n)
+                p == SmBlock(c.pre, n)
             IN  s.len = sz /\ Bit0(s.act) = (sz > 0) /\ s.start = p.start /\ s.ctl = p.ctl
-ApplyPdo(reg, n, sz) == [reg EXCEPT ![ASm + 8 * n + 2] = sz % 256, ![ASm + 8 * n + 3] = sz \div 256,
-                                    ![ASm + 8 * n + 6] = IF sz > 0 THEN 1 ELSE 0]
+ApplyPdo(sm, n, sz) == [sm EXCEPT ![n + 1] = [@ EXCEPT ![3] = sz % 256, ![4] = sz \div 256,
+                                                       ![7] = IF sz > 0 THEN 1 ELSE 0]]
 TargetO3(d, kind, rx) == IF Cands(d, kind, rx) = {} THEN (IF kind = "pdo_out" THEN 2 ELSE 3)
                          ELSE SetMax(Cands(d, kind, rx))
 PostWritePdoSm(c, e, ee, rx) ==
-    /\ SameOn(c.pre.reg, e.reg, StationRegs \cup WdRegs \cup FmmuRegs(e.nf))
+    /\ e.station = c.pre.station /\ e.wd = c.pre.wd /\ e.fmmu = c.pre.fmmu
     /\ e.al = c.pre.al
     /\ IF "O3" \in rx THEN      \* exactly what the code does: out first, then in, defaults 2 and 3
-           e.reg = ApplyPdo(ApplyPdo(c.pre.reg, TargetO3(ee.d, "pdo_out", rx), c.a),
-                            TargetO3(ee.d, "pdo_in", rx), c.b)
+           e.sm = ApplyPdo(ApplyPdo(c.pre.sm, TargetO3(ee.d, "pdo_out", rx), c.a),
+                           TargetO3(ee.d, "pdo_in", rx), c.b)
        ELSE /\ PdoProgrammed(c, e, ee.d, "pdo_out", c.a, rx)
             /\ PdoProgrammed(c, e, ee.d, "pdo_in", c.b, rx)
             /\ \A n \in 0 .. (NSm - 1) :
                   n \notin (Cands(ee.d, "pdo_out", rx) \cup Cands(ee.d, "pdo_in", rx))
-                  => SameOn(c.pre.reg, e.reg, BlockRegs(n))
+                  => IF n < NEnt(ee.d) THEN SmSame(c, e, n)
+                     ELSE SmSame(c, e, n) \/ ~SmActive(e, n)
+                                                   \* not declared: left alone, or at least off
 
 PostSetWatchdog(c, e) ==                                                              \* R7
-    /\ R16(e.reg, AWdPdi) = c.a /\ R16(e.reg, AWdProc) = c.b
-    /\ SameOn(c.pre.reg, e.reg, DOMAIN e.reg \ {AWdPdi, AWdPdi + 1, AWdProc, AWdProc + 1})
-    /\ e.al = c.pre.al
+    /\ e.wd = <<c.pre.wd[1], c.a, c.b>>
+    /\ e = [c.pre EXCEPT !.wd = e.wd]
 
 (* the whole chain EBPFTerminal.initialize: as initialize, then PRE-OPERATIONAL, the PDO sizes
    the terminal describes (ee.outbits / ee.inbits) written by write_pdo_sm, SAFE-OPERATIONAL  *)
@@ -274,55 +292,64 @@ PostEbpfInitialize(c, e, v, ee, rx) ==
     /\ StationOK(c, e, v, ee)
     /\ e.al = StSafeop
     /\ FmmusOff(c, e, v)
-    /\ SameOn(c.pre.reg, e.reg, WdRegs)
+    /\ e.wd = c.pre.wd
     /\ ee.has41
     /\ \A n \in 0 .. (NSm - 1) :
-          IF n >= NEnt(ee.d) THEN ~SmActive(e.reg, n)
+          IF n >= NEnt(ee.d) THEN ~SmActive(e, n)
           ELSE IF IsPd(Ent(ee.d, n)) THEN
-              LET s == SmBlock(e.reg, n)
+              LET s == SmBlock(e, n)
                   sz == BytesOf(IF Ent(ee.d, n).type = 3 THEN ee.outbits ELSE ee.inbits)
               IN  s.start = Ent(ee.d, n).start /\ s.ctl = Ent(ee.d, n).ctl /\ s.len = sz
                   /\ Bit0(s.act) = (sz > 0)
-          ELSE SmAsEeprom(e.reg, ee.d, n, rx)
+          ELSE SmAsEeprom(e, ee.d, n, rx)
     /\ MbxViewsOK(v, ee, rx)
     /\ \A kind \in {"pdo_out", "pdo_in"} :
           LET sz == IF kind = "pdo_out" THEN v.pdo_out_sz ELSE v.pdo_in_sz
               bits == IF kind = "pdo_out" THEN ee.outbits ELSE ee.inbits
           IN  sz = BytesOf(bits)
 
-PostOf(c, e, v, ee, rx) ==
-    CASE c.op = "initialize" -> PostInitialize(c, e, v, ee, rx)
-      [] c.op = "gentle" -> PostGentle(c, e, v, ee, rx)
-      [] c.op = "apply_eeprom" -> PostApply(c, e, v, ee, rx)
+PostOf(c, e, v, o, ee, rx) ==
+    CASE c.op = "initialize" -> PostInitialize(c, e, v, o, ee, rx)
+      [] c.op = "gentle" -> PostGentle(c, e, v, o, ee, rx)
+      [] c.op = "apply_eeprom" -> PostApply(c, e, v, o, ee, rx)
       [] c.op = "write_pdo_sm" -> PostWritePdoSm(c, e, ee, rx)
       [] c.op = "set_watchdog" -> PostSetWatchdog(c, e)
       [] c.op = "ebpf_initialize" -> PostEbpfInitialize(c, e, v, ee, rx)
       [] OTHER -> FALSE
 
-(* R9: the registers a call may write at all *)
-InitRegs(c) == (IF c.has_rel THEN StationRegs ELSE {}) \cup AlRegs \cup FmmuRegs(c.pre.nf)
-               \cup SiiRegs \cup SmRegs
+(* R9: the registers a call may write at all, as intervals <<first, last>>; a write datagram
+   must lie inside one of them                                                               *)
+IvStation == <<AStation, AStation + 1>>
+IvAl == <<AAlCtl, AAlCtl + 1>>
+IvSii == <<ASiiLo, ASiiHi>>
+IvSm == <<ASm, ASm + 8 * NSm - 1>>
+IvWd == {<<AWdDiv, AWdDiv + 1>>, <<AWdPdi, AWdPdi + 1>>, <<AWdProc, AWdProc + 1>>}
+InitRegs(c) == (IF c.has_rel THEN {IvStation} ELSE {}) \cup {IvAl, IvSii, IvSm}
+               \cup (IF c.pre.nf > 0 THEN {<<AFmmu, AFmmu + 16 * c.pre.nf - 1>>} ELSE {})
 MbxOutArea(ee) == IF ~ee.has41 THEN {} ELSE
-    UNION {Ent(ee.d, n).start .. (Ent(ee.d, n).start + Ent(ee.d, n).len - 1) : n \in ByType(ee.d, "mbx_out")}
+    {<<Ent(ee.d, n).start, Ent(ee.d, n).start + Ent(ee.d, n).len - 1>> : n \in ByType(ee.d, "mbx_out")}
 Allowed(c, ee) ==
     CASE c.op = "initialize" -> InitRegs(c)
-      [] c.op = "gentle" -> IF Configured(c) THEN SiiRegs ELSE InitRegs(c)
-      [] c.op = "apply_eeprom" -> SiiRegs \cup SmRegs
-      [] c.op = "write_pdo_sm" -> SmRegs
-      [] c.op = "set_watchdog" -> WdRegs
+      [] c.op = "gentle" -> IF Configured(c) THEN {IvSii} ELSE InitRegs(c)
+      [] c.op = "apply_eeprom" -> {IvSii, IvSm}
+      [] c.op = "write_pdo_sm" -> {IvSm}
+      [] c.op = "set_watchdog" -> IvWd
       [] c.op = "ebpf_initialize" -> InitRegs(c) \cup MbxOutArea(ee)
       [] OTHER -> {}
+InFrame(c, ee, ado, n) == \E iv \in Allowed(c, ee) : iv[1] <= ado /\ ado + n - 1 <= iv[2]
 
 (* ------------------------------------------------------------------------------------------ *)
 (* the steps *)
 VARIABLES ee,       \* the EEPROM (fixed during a behaviour) and the relaxations in force (ee.rx)
-          esc,      \* the slave controller: [reg, al, nf]
+          esc,      \* the slave controller: [station, wd, fmmu, sm, al, nf]
           obj,      \* the Terminal object's attributes as last reported
           call      \* the call in progress, with the ESC at its entry, or Idle
 evars == <<ee, esc, obj, call>>
 
 Idle == [op |-> "idle"]
-NoObj == [position |-> Unset]
+NoObj == [position |-> Unset, nfmmu |-> Unset, mbx_out_off |-> Unset, mbx_out_sz |-> Unset,
+          mbx_in_off |-> Unset, mbx_in_sz |-> Unset, pdo_out_off |-> Unset, pdo_out_sz |-> Unset,
+          pdo_out_addr |-> Unset, pdo_in_off |-> Unset, pdo_in_sz |-> Unset, pdo_in_addr |-> Unset]
 Busy == call.op # "idle"
 
 Call(c) == /\ ~Busy
@@ -332,14 +359,18 @@ Call(c) == /\ ~Busy
 (* t = 0: the terminal of the call; any other terminal must not be written at all *)
 Write(t, ado, data) ==
     /\ Busy /\ t = 0
-    /\ (ado .. (ado + Len(data) - 1)) \subseteq Allowed(call, ee)
+    /\ InFrame(call, ee, ado, Len(data)) = TRUE      \* (= TRUE: TLC evaluates it in one go)
     /\ esc' = EscWrite(esc, ado, data)
     /\ UNCHANGED <<ee, obj, call>>
-Return(ok, v, otherchanged) ==
-    /\ Busy /\ ok /\ otherchanged = <<>>
-    /\ PostOf(call, esc, v, ee, ee.rx)
+Return(v, otherchanged) ==
+    /\ Busy /\ otherchanged = <<>>
+    /\ PostOf(call, esc, v, obj, ee, ee.rx) = TRUE
     /\ obj' = v /\ call' = Idle
     /\ UNCHANGED <<ee, esc>>
+(* R9: no call of a script may fail.  The one failure an observation explains: without category
+   41 (O4) the object has no pdo_*_addr, write_pdo_sm raises before it writes anything          *)
+Fail == /\ Busy /\ "O4" \in ee.rx /\ ~ee.has41 /\ call.op = "write_pdo_sm" /\ esc = call.pre
+        /\ call' = Idle /\ UNCHANGED <<ee, esc, obj>>
 EnvAl(s) == ~Busy /\ esc' = [esc EXCEPT !.al = s] /\ UNCHANGED <<ee, obj, call>>
 EnvNewObj == ~Busy /\ obj' = NoObj /\ UNCHANGED <<ee, esc, call>>
 =============================================================================
